@@ -429,7 +429,8 @@ func (c *caseRun) inject(f Fault) []int {
 			c.w.Sim.DieUnreported(tid)
 			from := len(c.w.Sim.CallsSnapshot())
 			c.w.Sim.Reconnect()
-			waitFor(10*time.Second, func() bool {
+			// (the controller rations its registrations: 1 s, 2 s, 4 s .. 15 s between successive ones)
+			waitFor(45*time.Second, func() bool {
 				sub, rec := false, false
 				for _, k := range c.w.Sim.CallsSnapshot()[from:] {
 					sub = sub || k.Type == "SUBSCRIBE"
@@ -524,7 +525,7 @@ func (c *caseRun) settleFault(f Fault, vs []int) {
 	for _, i := range vs {
 		want[c.taskId(i)] = true
 	}
-	waitFor(600*time.Millisecond, func() bool {
+	waitFor(3*time.Second, func() bool {
 		seen := 0
 		for _, t := range c.w.Sim.Taskman.VerifRoster() {
 			if want[t.TaskId] {
@@ -882,7 +883,7 @@ func runCase(w *c0203.World, idx int, in Input) (obs []StepObs, wedged bool) {
 				simcore.SetReconcileOmit(simcore.AnswerOmit{Executor: omitEx, Agent: omitAg, Source: omitEx && omitAg})
 				runs := simcore.ReconcileRuns()
 				w.Sim.Reconnect()
-				waitFor(10*time.Second, func() bool { return simcore.ReconcileRuns() > runs })
+				waitFor(45*time.Second, func() bool { return simcore.ReconcileRuns() > runs })
 				time.Sleep(30 * time.Millisecond)
 				simcore.SetReconcileOmit(simcore.AnswerOmit{})
 			} else {
@@ -1595,6 +1596,37 @@ func main() {
 		workers = 16
 		if thorough {
 			workers = 24
+		}
+	}
+	// The controller of the core rations its (re)registrations with an exponential back-off per
+	// process (1 s, 2 s, 4 s, 8 s, 15 s between successive ones, decaying only slowly): at most three
+	// reconnections per worker process are kept (the cases are dealt round-robin); further ones become
+	// their equivalent without a new subscription - the same status content as a plain update
+	if o.Replay == "" {
+		perWorker := map[int]int{}
+		for i := range jobs {
+			wk := i % workers
+			for k := range jobs[i].In.Ops {
+				op := &jobs[i].In.Ops[k]
+				isRefresh := op.Kind == "refresh" && op.How == "reconnect"
+				isRoute := op.F != nil && op.F.L != nil && op.F.L.Path == "reconnect"
+				if !isRefresh && !isRoute {
+					continue
+				}
+				if perWorker[wk] < 3 {
+					perWorker[wk]++
+					continue
+				}
+				if isRefresh {
+					op.How = "update"
+				} else {
+					l := *op.F.L
+					l.Path, l.Reason, l.Src, l.NoUUID = "", "reconciliation", "master", true
+					f := *op.F
+					f.L = &l
+					op.F = &f
+				}
+			}
 		}
 	}
 	t0 := time.Now()
